@@ -90,4 +90,102 @@ __CPROVER_ensures(verif_raised == 0 || verif_raised == 1)
 __CPROVER_ensures(verif_raised == 0 ==> (WF(RET) && VAL(RET) == VAL(v1) - VAL(v2)))
 __CPROVER_assigns(verif_raised);
 
+
+/* ---- multiplication, division, remainder ---------------------------------------------------
+ * The 64-bit multiply/divide circuits are out of reach of every back end when they sit inside
+ * the sign/representation case analysis (PROBELOG.md: 0 of 26 configurations).  The proof is
+ * therefore split along function contracts:
+ *   - in mpz_mul/mpz_div/mpz_mod the machine operators * / % on uint64_t are printed by the
+ *     extractor as calls of the one-line primitives verif_umul64/udiv64/urem64 (prims.c);
+ *   - the primitives' contracts state (a) that they return MULLO/UDIV/UREM of their arguments and
+ *     (b) the few arithmetic lemmas the callers need, instantiated at the arguments (and at two
+ *     ghost words naming the last multiplication);  they are enforced against the real operator
+ *     with MULLO.. defined concretely (job kind 'lemma', cvc5 bv->int back end);
+ *   - the callers are verified with the primitives replaced by their contracts and
+ *     MULLO/MULHI/UDIV/UREM left uninterpreted (-DSPEC_ABSTRACT): whatever holds for every
+ *     interpretation satisfying the lemmas holds for the real operators (SAT back end).
+ */
+#ifdef SPEC_ABSTRACT
+uint64_t __CPROVER_uninterpreted_mullo(uint64_t, uint64_t);
+uint64_t __CPROVER_uninterpreted_mulhi(uint64_t, uint64_t);
+uint64_t __CPROVER_uninterpreted_udiv(uint64_t, uint64_t);
+uint64_t __CPROVER_uninterpreted_urem(uint64_t, uint64_t);
+#define MULLO(a, b) __CPROVER_uninterpreted_mullo(a, b)
+#define MULHI(a, b) __CPROVER_uninterpreted_mulhi(a, b)
+#define UDIV(a, b) __CPROVER_uninterpreted_udiv(a, b)
+#define UREM(a, b) __CPROVER_uninterpreted_urem(a, b)
+#else
+#define MULLO(a, b) ((uint64_t)((u128)(a) * (u128)(b)))
+#define MULHI(a, b) ((uint64_t)(((u128)(a) * (u128)(b)) >> 64))
+#define UDIV(a, b) ((uint64_t)(a) / (uint64_t)(b))
+#define UREM(a, b) ((uint64_t)(a) % (uint64_t)(b))
+#endif
+
+/* ghost: operands of the most recent verif_umul64; they only select the instance of the
+   overflow-test lemma in verif_udiv64's contract, which holds for all values of them */
+extern uint64_t g_mul_a, g_mul_b;
+
+uint64_t verif_umul64(uint64_t a, uint64_t b)
+__CPROVER_ensures(RET == MULLO(a, b))
+__CPROVER_ensures(MULLO(a, b) == MULLO(b, a) && MULHI(a, b) == MULHI(b, a))
+__CPROVER_ensures((a == 0 || b == 0) ==> (MULLO(a, b) == 0 && MULHI(a, b) == 0))
+__CPROVER_ensures(g_mul_a == a && g_mul_b == b)
+__CPROVER_assigns(g_mul_a, g_mul_b);
+
+uint64_t verif_udiv64(uint64_t x, uint64_t y)
+__CPROVER_requires(y != 0)
+__CPROVER_ensures(RET == UDIV(x, y))
+/* the repository's overflow test  a != 0 && lo(a*b)/a != b  <=>  hi(a*b) != 0 */
+__CPROVER_ensures((x == MULLO(g_mul_a, g_mul_b) && y == g_mul_a) ==>
+                  ((RET != g_mul_b) == (MULHI(g_mul_a, g_mul_b) != 0)))
+__CPROVER_ensures((x == MULLO(g_mul_a, g_mul_b) && y == g_mul_b) ==>
+                  ((RET != g_mul_a) == (MULHI(g_mul_a, g_mul_b) != 0)))
+__CPROVER_assigns();
+
+uint64_t verif_urem64(uint64_t x, uint64_t y)
+__CPROVER_requires(y != 0)
+__CPROVER_ensures(RET == UREM(x, y) && RET < y)
+__CPROVER_assigns();
+
+/* exact product of the magnitudes is MULHI:MULLO; the signed product is out of range iff the
+   high word is non-zero, or it is negative and the low word exceeds 2^63 */
+#define NEGRES(v1, v2) (ISNEG(v1) != ISNEG(v2))
+#define P_LO(v1, v2) MULLO(MAG(v1), MAG(v2))
+#define P_HI(v1, v2) MULHI(MAG(v1), MAG(v2))
+#define MUL_RAISES(v1, v2) (P_HI(v1, v2) != 0 || (NEGRES(v1, v2) && P_LO(v1, v2) > ((uint64_t)1 << 63)))
+#define MUL_VALUE(v1, v2) (NEGRES(v1, v2) ? -(i128)P_LO(v1, v2) : (i128)P_LO(v1, v2))
+
+mpz_class mpz_mul(mpz_class v1, mpz_class v2)
+__CPROVER_requires(WF(v1) && WF(v2) && verif_raised == 0)
+__CPROVER_ensures((verif_raised != 0) == MUL_RAISES(v1, v2))
+__CPROVER_ensures(verif_raised == 0 || verif_raised == 1)
+__CPROVER_ensures(verif_raised == 0 ==> (WF(RET) && VAL(RET) == MUL_VALUE(v1, v2)))
+__CPROVER_assigns(verif_raised, g_mul_a, g_mul_b);
+
+/* floor division on sign and magnitude: the quotient of the magnitudes, rounded away from zero
+   when the signs differ and there is a remainder, negated when the signs differ */
+#define DIV_Q(v1, v2) UDIV(MAG(v1), MAG(v2))
+#define DIV_R(v1, v2) UREM(MAG(v1), MAG(v2))
+#define DIV_VALUE(v1, v2) (NEGRES(v1, v2) \
+   ? -((i128)DIV_Q(v1, v2) + (DIV_R(v1, v2) != 0 ? 1 : 0)) : (i128)DIV_Q(v1, v2))
+
+mpz_class mpz_div(mpz_class v1, mpz_class v2)
+__CPROVER_requires(WF(v1) && WF(v2) && verif_raised == 0)
+__CPROVER_ensures((verif_raised != 0) == (v2.m_u == 0 || !INRANGE(DIV_VALUE(v1, v2))))
+__CPROVER_ensures(verif_raised == 0 || verif_raised == 1)
+__CPROVER_ensures(verif_raised == 0 ==> (WF(RET) && VAL(RET) == DIV_VALUE(v1, v2)))
+__CPROVER_assigns(verif_raised, g_mul_a, g_mul_b);
+
+/* remainder with the divisor's sign: |r| = |a| mod |b|, complemented to |b| when the signs
+   differ and it is non-zero; always in range, so only division by zero raises */
+#define MOD_M(v1, v2) ((DIV_R(v1, v2) != 0 && NEGRES(v1, v2)) ? MAG(v2) - DIV_R(v1, v2) : DIV_R(v1, v2))
+#define MOD_VALUE(v1, v2) (ISNEG(v2) ? -(i128)MOD_M(v1, v2) : (i128)MOD_M(v1, v2))
+
+mpz_class mpz_mod(mpz_class v1, mpz_class v2)
+__CPROVER_requires(WF(v1) && WF(v2) && verif_raised == 0)
+__CPROVER_ensures((verif_raised != 0) == (v2.m_u == 0))
+__CPROVER_ensures(verif_raised == 0 || verif_raised == 1)
+__CPROVER_ensures(verif_raised == 0 ==> (WF(RET) && VAL(RET) == MOD_VALUE(v1, v2)))
+__CPROVER_assigns(verif_raised, g_mul_a, g_mul_b);
+
 #endif
